@@ -1,15 +1,20 @@
 #!/bin/bash
 # tools/seed_keep.sh <tag> <PROP>   e.g. c01a C01
-# Collect a seeded change from its scratch worktree /tmp/seed_<tag>: store patch+demo+notes under /verif/seeded/<tag>/,
-# confirm the demo passes on the original tree and fails on the changed one.
+# Collect a seeded change from its scratch worktree /tmp/seed_<tag> (if it still exists): store patch+demo+notes under
+# /verif/seeded/<tag>/; then confirm, on two scratch trees outside /repo and /verif (original = /repo/src as it is now,
+# changed = original + patch), that the demo passes on the original and fails on the changed tree.
 set -u
 tag="$1"; prop="$2"; wt="/tmp/seed_$tag"; dest="/verif/seeded/$tag"
 mkdir -p "$dest"
-git -C "$wt" diff -- src > "$dest/patch.diff"
-cp "$wt/demo_$tag.py" "$dest/" 2>/dev/null; cp "$wt/notes_$tag.md" "$dest/" 2>/dev/null
+if [ -d "$wt" ]; then
+  git -C "$wt" diff -- src > "$dest/patch.diff"
+  cp "$wt/demo_$tag.py" "$dest/" 2>/dev/null; cp "$wt/notes_$tag.md" "$dest/" 2>/dev/null
+fi
 echo "patch lines: $(wc -l < "$dest/patch.diff")"
-tmp=$(mktemp -d /tmp/seedchk.XXXX); mkdir -p "$tmp/orig" "$tmp/chg"
-( cd "$tmp/orig" && PYTHONPATH=/repo/src timeout 900 /venv/bin/python "$dest/demo_$tag.py" > "$tmp/orig.log" 2>&1 ); o=$?
-( cd "$tmp/chg" && PYTHONPATH="$wt/src" timeout 900 /venv/bin/python "$dest/demo_$tag.py" > "$tmp/chg.log" 2>&1 ); c=$?
-echo "demo on original: exit $o ($(tail -1 $tmp/orig.log | cut -c1-100)); on changed: exit $c ($(tail -1 $tmp/chg.log | cut -c1-100))"
+tmp=$(mktemp -d /tmp/seedchk.XXXX)
+for v in orig chg; do mkdir -p "$tmp/$v"; cp -r /repo/src "$tmp/$v/src"; cp "$dest/demo_$tag.py" "$tmp/$v/"; done
+( cd "$tmp/chg" && patch -s -p1 < "$dest/patch.diff" ) || echo "PATCH DOES NOT APPLY to the current tree"
+( cd "$tmp/orig" && PYTHONPATH="$tmp/orig/src" timeout 1200 /venv/bin/python demo_$tag.py > "$tmp/orig.log" 2>&1 ); o=$?
+( cd "$tmp/chg" && PYTHONPATH="$tmp/chg/src" timeout 1200 /venv/bin/python demo_$tag.py > "$tmp/chg.log" 2>&1 ); c=$?
+echo "demo on original: exit $o ($(grep -m1 -E 'PASS|FAIL' $tmp/orig.log | cut -c1-60)); on changed: exit $c ($(grep -m1 -E 'PASS|FAIL' $tmp/chg.log | cut -c1-60))"
 rm -rf "$tmp"
